@@ -344,7 +344,7 @@ def run(ctx):
         resolve_after_add(ctx, int(ctx.rng.integers(2 ** 31)))
     for k in range(ctx.n(60, 1200)):
         r, seed = c01.O_sub(ctx)
-        d = O.gen_model(r); d['seed'] = seed
+        d = O.gen_model(r); d['seed'] = seed; d['late'] = None     # late rvars are C01/C02's scenario; histories here permute steps
         search_one(ctx, d, int(ctx.rng.integers(2 ** 31)))
 
 
